@@ -10,7 +10,7 @@ From Coq Require Import List NArith ZArith Bool Arith Lia Ring Reals RealField L
 From Coquelicot Require Import Coquelicot.
 From PV Require Import Graph.OpFamily Tensor.Kernels Tensor.Index Tensor.KernelProofs Tensor.ProofsGather
   Tensor.ProofsPerm Tensor.ProofsBilinear Scalar.ScalarBase Gen.ScalarGen Scalar.Deriv Scalar.Pown
-  Tensor.AdjCore Tensor.AdjMatmul Tensor.AdjScalar Tensor.GraphInst Tensor.AdjMax Tensor.AdjSoftmax Tensor.GraphInstR.
+  Tensor.AdjCore Tensor.AdjMatmul Tensor.AdjScalar Tensor.GraphInst Tensor.AdjMax Tensor.AdjSoftmax Tensor.AdjScalarR Tensor.GraphInstR.
 Import ListNotations.
 Local Open Scope R_scope.
 
@@ -235,6 +235,44 @@ Proof.
   intros xs dxs Hx _ _ r. cbn [mulsc_desc d_fw d_jvp]. apply cderiv_single.
   apply (ab_map_deriv (scalar_fw sx sk (sc_shape sx sk)) Rmult (fun a b da db => da * b + a * db) (fun _ _ => True)
            (fun t => nth 0 (xs t) []) (fun t => nth 1 (xs t) []) (nth 0 dxs []) (nth 1 dxs []) chain2_mul (Hx 0%nat) (Hx 1%nat) (fun _ _ => I)).
+Qed.
+
+(* ---- the Divide / Pow ...Scalar operators ---- *)
+Lemma chain2_eq f j j' (dom2 : R -> R -> Prop) : chain2 f j dom2 -> (forall a b da db, dom2 a b -> j a b da db = j' a b da db) -> chain2 f j' dom2.
+Proof. intros H E u v du dv Hu Hv Hd. rewrite <- (E _ _ _ _ Hd). apply H; assumption. Qed.
+Lemma chain2_swap f j (dom2 : R -> R -> Prop) : chain2 f j dom2 ->
+  chain2 (fun a b => f b a) (fun a b da db => j b a db da) (fun a b => dom2 b a).
+Proof. intros H u v du dv Hu Hv Hd. apply (H v u dv du Hv Hu Hd). Qed.
+Definition scy_j (f : R -> R -> R) (n1 n2 : bool) (D1 D2 : R -> R -> R -> R) (a b da db : R) : R :=
+  da * sgn n1 (D1 a b (f a b)) + db * sgn n2 (D2 a b (f a b)).
+Definition scy_dom (sx sk : tshape) (dom2 : R -> R -> Prop) (xs : list (list R)) : Prop :=
+  forall e, In e (scalar_fw sx sk (sc_shape sx sk)) -> dom2 (nth (fst (snd e)) (nth 0 xs []) 0) (nth (snd (snd e)) (nth 1 xs []) 0).
+Lemma scy_deriv sx sk f n1 n2 D1 D2 bw dom2 : chain2 f (scy_j f n1 n2 D1 D2) dom2 ->
+  desc_deriv (scy_desc sx sk f n1 n2 D1 D2 bw) (scy_dom sx sk dom2).
+Proof.
+  intros Hc xs dxs Hx _ Hdom r. cbn [scy_desc d_fw d_jvp]. apply cderiv_single.
+  apply (ab_map_deriv (scalar_fw sx sk (sc_shape sx sk)) f (scy_j f n1 n2 D1 D2) dom2
+           (fun t => nth 0 (xs t) []) (fun t => nth 1 (xs t) []) (nth 0 dxs []) (nth 1 dxs []) Hc (Hx 0%nat) (Hx 1%nat) Hdom).
+Qed.
+Lemma chain2_divscr : chain2 fw_divide_scalar_r (scy_j fw_divide_scalar_r false true (fun x k y => / k) (fun x k y => / k * y)) (fun _ k => k <> 0).
+Proof.
+  apply (chain2_eq _ _ _ _ chain2_div). intros a b da db Hb.
+  unfold scy_j, sgn, b_jvp, b_bw_a, b_bw_b, b_fw, bw_divide_a, bw_divide_b, fw_divide, fw_divide_scalar_r. field. exact Hb.
+Qed.
+Lemma chain2_divscl : chain2 fw_divide_scalar_l (scy_j fw_divide_scalar_l true false (fun x k y => / x * y) (fun x k y => / x)) (fun x _ => x <> 0).
+Proof.
+  apply (chain2_eq _ _ _ _ (chain2_swap _ _ _ chain2_div)). intros a b da db Hb.
+  unfold scy_j, sgn, b_jvp, b_bw_a, b_bw_b, b_fw, bw_divide_a, bw_divide_b, fw_divide, fw_divide_scalar_l. field. exact Hb.
+Qed.
+Lemma chain2_powscr : chain2 fw_pow_scalar_r (scy_j fw_pow_scalar_r false false (fun x k y => y * k / x) (fun x k y => y * ln x)) (fun x _ => 0 < x).
+Proof.
+  apply (chain2_eq _ _ _ _ chain2_pow). intros a b da db Hb.
+  unfold scy_j, sgn, b_jvp, b_bw_a, b_bw_b, b_fw, bw_pow_a, bw_pow_b, fw_pow, fw_pow_scalar_r. field. lra.
+Qed.
+Lemma chain2_powscl : chain2 fw_pow_scalar_l (scy_j fw_pow_scalar_l false false (fun x k y => y * ln k) (fun x k y => y * x / k)) (fun _ k => 0 < k).
+Proof.
+  apply (chain2_eq _ _ _ _ (chain2_swap _ _ _ chain2_pow)). intros a b da db Hb.
+  unfold scy_j, sgn, b_jvp, b_bw_a, b_bw_b, b_fw, bw_pow_a, bw_pow_b, fw_pow, fw_pow_scalar_l. field. lra.
 Qed.
 
 (* ------------------------------------------------------------------ bilinear triples *)
@@ -681,6 +719,10 @@ Definition real_dom (o : rop) (xs : list (list R)) : Prop :=
   | RSparseSCE sx sp ids dim => True
   | RMaxPool sx sy w0 w1 p0 p1 s0 s1 =>      (* every non-empty window attains its maximum once *)
       redx_dom rgt (pool2d_red sx sy w0 w1 p0 p1 s0 s1) xs
+  | RDivScalarR sx sk => scy_dom sx sk (fun _ k => k <> 0) xs
+  | RDivScalarL sx sk => scy_dom sx sk (fun x _ => x <> 0) xs
+  | RPowScalarR sx sk => scy_dom sx sk (fun x _ => 0 < x) xs
+  | RPowScalarL sx sk => scy_dom sx sk (fun _ k => 0 < k) xs
   end.
 
 Lemma un_slope u x : un_dom u x -> is_derive (un_fw u) x (un_bw u x (un_fw u x) 1).
@@ -744,7 +786,7 @@ Qed.
 (* the tangent of every operator of real_family is the derivative of its forward value, on its smooth domain *)
 Theorem jvp_is_derivative (o : rop) : desc_deriv (describeR o) (real_dom o).
 Proof.
-  destruct o as [c|u s|c s k|s|s|s k|b sa sb|sx sy dim|sx sy dim|sx sy dim|sx sy dim|sx sp ids dim|sx sy w0 w1 p0 p1 s0 s1]; cbn [describeR real_dom].
+  destruct o as [c|u s|c s k|s|s|s k|b sa sb|sx sy dim|sx sy dim|sx sy dim|sx sy dim|sx sp ids dim|sx sy w0 w1 p0 p1 s0 s1|sx sk|sx sk|sx sk|sx sk]; cbn [describeR real_dom].
   - apply core_deriv.
   - apply (uny_deriv s (un_fw u) (un_bw u) (un_dom u)). apply un_slope.
   - apply (uny_deriv s (fun x => k_fw c x k) (fun x y g => k_bw c x y g k) (k_dom c k)). apply k_slope.
@@ -761,6 +803,10 @@ Proof.
   - apply sce_deriv.
   - apply ssce_deriv.
   - apply (redx_deriv rgt flt_lowest sx sy _ _ rgt_asym rgt_irrefl open_rgt).
+  - apply (scy_deriv sx sk _ _ _ _ _ _ _ chain2_divscr).
+  - apply (scy_deriv sx sk _ _ _ _ _ _ _ chain2_divscl).
+  - apply (scy_deriv sx sk _ _ _ _ _ _ _ chain2_powscr).
+  - apply (scy_deriv sx sk _ _ _ _ _ _ _ chain2_powscl).
 Qed.
 
 (* readable instances: one operand curve x with derivative dx at 0 (e.g. the line x0 + t dx) *)
